@@ -90,7 +90,7 @@ func valTerm(t *tb, r *Result, v ssa.Value, depth int) string {
 	case *ssa.Phi:
 		var alts []string
 		for i, e := range x.Edges {
-			if r != nil && !r.Exec[x.Block().Preds[i]] {
+			if r != nil && !r.edgeExec(x.Block().Preds[i], x.Block()) {
 				continue
 			}
 			alts = append(alts, valTerm(t, r, e, depth+1))
